@@ -441,7 +441,9 @@ ParamCheck == /\ Is("ParamCheck")
               /\ fails' = ParamCheckFails(Ev)
               /\ l' = l + 1 /\ UNCHANGED <<run, scen, params, base, objs, call, hist, expect>>
 
-Next == HpwlScale \/ FreeUse \/ ApiEv \/ PassEv \/ PassThrow \/ RoundTrip \/ ExportEv \/ BindEv \/ ExpandEv \/ GridEv \/ SolveEv \/ Schedule \/ HarnessError \/ ExpectReject \/ ParamsCtor \/ ParamCheck \/ Rebase \/ FreeEv \/ Incr \/ Reset \/ Begin \/ Cb \/ CbThrow \/ EndReturn \/ EndThrow \/ BadFate \/ Setter
+ParamSetEv == /\ Is("ParamSet") /\ fails' = ParamSetFails(Ev)
+              /\ l' = l + 1 /\ UNCHANGED <<run, scen, params, base, objs, call, hist, expect>>
+Next == ParamSetEv \/ HpwlScale \/ FreeUse \/ ApiEv \/ PassEv \/ PassThrow \/ RoundTrip \/ ExportEv \/ BindEv \/ ExpandEv \/ GridEv \/ SolveEv \/ Schedule \/ HarnessError \/ ExpectReject \/ ParamsCtor \/ ParamCheck \/ Rebase \/ FreeEv \/ Incr \/ Reset \/ Begin \/ Cb \/ CbThrow \/ EndReturn \/ EndThrow \/ BadFate \/ Setter
 Spec == Init /\ [][Next]_vars
 
 ---------------------------------------------------------------------------
